@@ -21,7 +21,7 @@ class C12(Spec):
     impl_env = {"NUN_MAX_OP_LOG_SIZE": "2500"}
     rule = ("all timestamp shapes (which neighbours are equal) of logs of 0..N records, keys/dbs/kinds cycling through 2 dbs x 3 keys x 4 kinds, "
             "x every since in {0, before first, each record time and +-1, after last}; two- and three-file splits of the same logs; seeded random logs up to several hundred records; "
-            "appends through the real try_write_op_log with NUN_MAX_OP_LOG_SIZE=2500 to force rotation, followed by the pruning of rotated files. "
+            "appends through the real try_write_op_log with NUN_MAX_OP_LOG_SIZE=2500 to force rotation, followed by the pruning of rotated files, incl. runs of 11 and 24 records under ONE id (a multi-database snapshot) starting at every offset of the current file. "
             "Oracle: linear scan of the files as listed after each step. non-trivial = the query has to skip at least one record and return at least one; distinct by trace hash")
     assumptions = ["files hold whole 25-byte records (a torn trailing record is C16's crash matter)", "rotated files are ordered by creation time (btime), files created 4 ms apart by the harness"]
 
@@ -84,6 +84,16 @@ class C12(Spec):
                 if rng.chance(1, 2): c.append(f"OPLOG query {1000 + rng.below(t - 999)}")
             c += ["OPLOG last", "OPLOG declutter", "OPLOG query 1"]
             cases.append(c)
+        # one operation that writes MANY records under one id (a snapshot of several databases) across rotation boundaries:
+        # whole rotated files whose records all carry the same id, starting at every offset of the current file
+        for pre in range(0, 23):
+            for run in (11, 24):
+                t = 1000; recs = []
+                for i in range(pre): t += 2; recs.append(rec(t, i % 3, 1 + i % 2, i % KINDS))
+                t += 2
+                for i in range(run): recs.append(rec(t, i % 3, 1 + i % 2, 3))
+                for i in range(4): t += 2; recs.append(rec(t, i % 3, 1, 0))
+                cases.append(["RESET", "OPLOG append " + ";".join(recs), "OPLOG query 1", f"OPLOG query {1000 + 2 * pre + 2}", "OPLOG last", "OPLOG declutter", "OPLOG query 1"])
         return cases
 
     def nontrivial(self, case, impl):
